@@ -149,3 +149,39 @@ Print Assumptions c11_scale_netwf.
 Print Assumptions c11_value_scale.
 Print Assumptions c11_sweep_exact_scaled.
 Print Assumptions c11_split_scaled.
+
+(* ---- added (round 4): gauge freedom = WITHIN-TENSOR rescaling.  Multiplying every entry of every site tensor by one
+   factor per index value of each of its four legs, such that on every bond the factors of the two ends cancel index by
+   index (the harness uses 2^g_i on one end and 2^-g_i on the other, |g_i| up to 600, so that the entries of ONE tensor
+   span hundreds of binary orders of magnitude), keeps the network well-shaped and leaves the exact value, the column
+   sweep in both directions and every split-and-recombine unchanged [P-forall] (Tensor/Gauge.v).  Hence entries of a
+   merged site tensor may not be discarded for being small relative to other entries of the same tensor. ---- *)
+From QV Require Import Tensor.Gauge.
+Theorem c11_gauge_netwf : forall (K : cring) (r : nat) (tn : list (list (option (tensor K)))) (gss : list (list (legfac K))),
+  netwf K r tn -> netwf K r (gauge_net K gss tn).
+Proof. exact gauge_netwf. Qed.
+Theorem c11_opc_gauge : forall (K : cring) (A : list (option (tensor K))) (gs : list (legfac K)) v ws es, vgauge K gs A ->
+  opc (gauge_col K gs A) v ws es = rmul K (rmul K (rmul K (colN K gs A v) (colE K gs A es)) (colW K gs A ws)) (opc A v ws es).
+Proof. exact opc_gauge. Qed.
+Theorem c11_value_gauge : forall (K : cring) (r : nat) (tn : list (list (option (tensor K)))) (gss : list (list (legfac K))),
+  gauged K r gss tn -> value r (gauge_net K gss tn) = value r tn.
+Proof. exact value_gauge. Qed.
+Theorem c11_sweep_exact_gauged : forall (K : cring) (r : nat) (tn : list (list (option (tensor K)))) (gss : list (list (legfac K))),
+  netwf K r tn -> gauged K r gss tn ->
+  contract K (gauge_net K gss tn) None None None None None None = Ok (Scalar (value r tn))
+  /\ contract K (gauge_net K gss tn) None None None None (Some 1%Z) None = Ok (Scalar (value r tn))
+  /\ contract K (gauge_net K gss tn) None None None None (Some (-1)%Z) None = Ok (Scalar (value r tn)).
+Proof. exact sweep_exact_gauged. Qed.
+Theorem c11_split_gauged : forall (K : cring) (r : nat) (tn : list (list (option (tensor K)))) (gss : list (list (legfac K))) (c : nat),
+  0 < c < length tn -> netwf K r tn -> gauged K r gss tn ->
+  split_contract K (gauge_net K gss tn) None None None (Z.of_nat c) = Ok (value r tn).
+Proof. exact split_exact_gauged. Qed.
+(* non-vacuity: the example network gauged by signs on a horizontal and a vertical bond *)
+Theorem c11_example_gauged : gauged Zring 2 ex_gauge ex_net /\ valueZ 2 (gauge_net Zring ex_gauge ex_net) = 731%Z.
+Proof. exact (conj ex_gauged (proj1 ex_gauge_values)). Qed.
+Print Assumptions c11_gauge_netwf.
+Print Assumptions c11_opc_gauge.
+Print Assumptions c11_value_gauge.
+Print Assumptions c11_sweep_exact_gauged.
+Print Assumptions c11_split_gauged.
+Print Assumptions c11_example_gauged.
